@@ -572,7 +572,7 @@ def main():
     print(json.dumps({
         "cases": cases, "distinct": len(seen), "failures": fails[:5], "known": known,
         "bound": ("every forest of <= %d program nodes over {action A/B ok/fail, message m/A, remote sub-task} x {inline, body deferred until after the parent's end, deferred to program end}"
-                  " (larger sizes sampled by seed), plus %s seeded random programs of depth <= 6 and <= 52 nodes with repeated/equal types at several depths, failed and unfinished actions,"
+                  " (larger sizes sampled by seed), plus %s seeded random programs of nesting depth <= 6 and <= ~65 nodes with repeated/equal types at several depths, failed and unfinished actions,"
                   " remote sub-tasks, nested new tasks, late messages, duplicate task shapes, > 9 siblings, default vs explicit logger;"
                   " user field names never collide with eliot's reserved names")
                  % (3 if quick else 4, "450" if quick else "12000"),
